@@ -557,6 +557,14 @@ def run_call(case, record=True, owned=False):
             if gc_was:
                 gc.enable()
             gc.collect()
+    # R6: a tree the seams do not fit is harness trouble, never a verdict
+    if sim.missing_seams:
+        raise HarnessError(f"HARNESS-INCOMPATIBLE: expected seam(s) not found in fast_ticc: {sim.missing_seams}")
+    if record and out.ok:
+        fired = {p["name"] for p in sim.phases}
+        never = [n for n in ("fit", "statistics", "optimise", "relabel", "ll_table", "viterbi") if n not in fired]
+        if never:
+            raise HarnessError(f"HARNESS-INCOMPATIBLE: a run completed but phase(s) {never} never fired at their seams")
     out.np_state_after = digest(list(np.random.get_state()[1][:8]))
     out.fields = result_fields(out.result)
     out.result_digest = digest(out.fields) if out.ok else None
